@@ -102,6 +102,15 @@ def discriminated_subclass_alone(job, failure) -> bool:
     return _rerun(job, failure, repair_lone=True)
 
 
+def mapping_key_constraints_not_in_schema(job, failure) -> bool:
+    """C06: the schema of a Mapping whose keys are constrained (pattern, Literal / Enum keys)
+    does not restrict the key names: the disagreement disappears when the reference stops
+    checking mapping keys, and the strict reference agrees with deserialize"""
+    if failure.get("kind") != "deser-rejects-schema-accepts":
+        return False
+    return _explained(job, failure, "map_keys_unchecked")
+
+
 def dependent_required_exclude_defaults(job, failure) -> bool:
     """C07: the output validates once dependentRequired is removed from the schema, and
     the job runs with exclude_defaults"""
